@@ -234,12 +234,18 @@ var MapRichDocs = []string{
 	`{"properties":{"id":{"type":"integer"},"ID":{"type":"string"},"Id":true,"iD":false,"a":{}},"required":["ID","id"],"x-A":1,"x-a":2,"$defs":{"Q":{},"q":{}}}`,
 	// one malformed member among well-formed ones: refused under every visiting order
 	`{"dependencies":{"b":["c"],"a":[1],"d":{"type":"integer"}},"properties":{"p":{"dependencies":{"x":5,"y":["z"]}}}}`,
+	// keywords that the document's draft does not know stay in the Schema value, untouched by Validate
+	`{"$schema":"http://json-schema.org/draft-07/schema#","contains":{"type":"integer"},"minContains":2,"maxContains":3,"unevaluatedItems":false,"items":{"contains":{"const":1},"minContains":0,"dependentRequired":{"a":["b"]},"prefixItems":[false]},"$defs":{"a":false},"properties":{"b":{"$anchor":"k","dependentSchemas":{"a":false}}}}`,
+	// recursive schemas: the same Schema is re-entered for a nested object while the outer object's
+	// properties are still being walked (in whatever order the map yields them)
+	`{"properties":{"name":{"type":"string"},"tag":{"type":"string"},"next":{"$ref":"#"}},"additionalProperties":false}`,
+	`{"$defs":{"n":{"properties":{"name":true,"next":{"$ref":"#/$defs/n"},"tag":true},"patternProperties":{"^q":{"$ref":"#/$defs/n"}},"unevaluatedProperties":false}},"$ref":"#/$defs/n"}`,
 	// unevaluatedItems after contains / prefixItems in several in-place branches
 	`{"anyOf":[{"prefixItems":[true]},{"contains":{"const":9}},{"contains":{"const":2}}],"oneOf":[{"minItems":0},{"maxItems":0}],"unevaluatedItems":{"type":"integer","maximum":5}}`,
 }
 
 // InstanceTexts for C14 (each also in two non-canonical representations).
-var InstanceTexts = []string{`["b","a","c"]`, `[3,1,2,1]`, `{"a":1,"b":1,"c":1,"ab":1}`, `{"a":1,"b":"s","q1":1,"zz":1}`, `[2,9,7]`, `[9,1]`, `[1,9]`, `{"p":9,"q":1}`, `{"q":2,"p":9}`, `[2,2]`, `{"a":"ab","b":1,"c":[1,2]}`, `{"c":1,"a":"x"}`, `[{"b":1,"a":2},{"a":2,"b":1}]`, `[{"a":1,"c":2},{"b":1,"d":2}]`, `1`, `"a"`, `{"b":"s","a":1,"ab":2}`, `[3,1,2]`, `{"p":{},"q":[9]}`, `null`}
+var InstanceTexts = []string{`["b","a","c"]`, `[3,1,2,1]`, `{"a":1,"b":1,"c":1,"ab":1}`, `{"a":1,"b":"s","q1":1,"zz":1}`, `[2,9,7]`, `[9,1]`, `[1,9]`, `{"p":9,"q":1}`, `{"q":2,"p":9}`, `[2,2]`, `{"a":"ab","b":1,"c":[1,2]}`, `{"c":1,"a":"x"}`, `[{"b":1,"a":2},{"a":2,"b":1}]`, `[{"a":1,"c":2},{"b":1,"d":2}]`, `1`, `"a"`, `{"b":"s","a":1,"ab":2}`, `[3,1,2]`, `{"p":{},"q":[9]}`, `null`, `{"name":"a","tag":"t","next":{"name":"b"}}`}
 
 type result struct {
 	marshal string
